@@ -830,3 +830,56 @@ func (en *Engine) BoundAfterPanics(n, q, rounds int) {
 	}
 	en.Shutdown(r, false)
 }
+
+// ---------------------------------------------------------------- C06/C14: dynamic types of the Task values
+
+// TaskKinds: live context, long timeout, no task panics. Tasks of every dynamic type are pushed: pointer, func
+// adapter, structs with a slice / a map field (unhashable), `eq` pushes of EQUAL comparable struct values, `eq`
+// pushes of a zero-size struct value. Every accepted task must be started exactly once within the bound, and
+// LastPanic must stay nil (no task raised anything).
+func (en *Engine) TaskKinds(n, q, eq int) {
+	const fam = "taskkinds"
+	name := sname(fam, n, q, eq)
+	if en.Skip(fam, name) {
+		return
+	}
+	r := en.New(fam, name, n, q)
+	defer en.Finish(fam, r)
+	r.Start(longTimeout)
+	var all []*Task
+	push := func(t *Task, lane int) {
+		all = append(all, t)
+		if res := r.Push(t, lane); res != "ok" {
+			r.Violation("progress: push of a %s-kind task returned %s on a live, draining lane", t.Kind(), res)
+		}
+	}
+	for _, k := range IdentityKinds {
+		push(r.NewTask(false, 0, false).Wrap(k), en.Rng.Intn(n))
+	}
+	for _, k := range []string{KindEqual, KindZero} {
+		lane := en.Rng.Intn(n)
+		g := r.NewGroup(k, eq)
+		for _, t := range g {
+			push(t, lane)
+		}
+		// the zero-size group is looked up through a package variable: finish it before anything else may replace it
+		for _, t := range g {
+			if !WaitUntil(LiveBound, func() bool { return r.Finished(t) }) {
+				r.Violation("progress: kind=%s: %d equal values were accepted, task %d was not started within %v (context live)", k, eq, t.ID, LiveBound)
+				break
+			}
+		}
+	}
+	for _, t := range all {
+		if !WaitUntil(LiveBound, func() bool { return r.Finished(t) }) {
+			r.Violation("progress: kind=%s: accepted task %d was not started within %v (context live, no task panics, workers idle)", t.Kind(), t.ID, LiveBound)
+		}
+	}
+	if _, lp := r.Status(); lp != -1 {
+		r.Violation("lastpanic: no task panicked, LastPanic is set (value id %d; -2 = a value no task raised) after tasks of kinds ptr/func/slice/map/equal/zero", lp)
+	}
+	if last, ok := r.PendingSettles(0, LiveBound); !ok && len(r.viols) == 0 {
+		r.Violation("pending-exact: lane at rest, PendingTask=%d want 0", last)
+	}
+	en.Shutdown(r, false)
+}
